@@ -401,6 +401,18 @@ func publishAfterCompleteWrite(p *core.Prog, r *core.Report, r1 *core.RuleH) {
 	core.CheckEffects(p, r1, core.EffectRule{Fn: "(*" + fst + "linuxWriter).writeFile", Min: 1,
 		Guards: append([]core.Guard{wv("golang.org/x/sys/unix.Write")}, lg...), Derived: []core.Derived{ld},
 		Effect: core.CallTo("golang.org/x/sys/unix.Linkat"), Need: func(string) []string { return []string{"data-written", "full-length-written"} }})
+	// the compressed-object rewrite is a fourth publisher: it gives the unnamed file a name (which the exchange then
+	// swaps into the object's path) only after the complete write, and only when that name was really created
+	if rw := p.Func(fst + "rewriteCompressedObjectFile"); rw != nil && rw.Blocks != nil {
+		wg, wd := lenFacts("(*os.File).Write")
+		core.CheckEffectsFn(p, r1, rw, core.EffectRule{Min: 1,
+			Guards:  append([]core.Guard{{Name: "data-written", Match: func(s core.Site) bool { return s.Name == "(*os.File).Write" }, Comps: []core.Comp{{Result: 1, Kind: core.ErrNil}}}}, wg...),
+			Derived: []core.Derived{wd},
+			Effect:  core.CallTo("golang.org/x/sys/unix.Linkat"), Need: func(string) []string { return []string{"data-written", "full-length-written"} }})
+		core.CheckEffectsFn(p, r1, rw, core.EffectRule{Min: 1,
+			Guards: []core.Guard{core.G("temporary-name-created-by-this-call", core.ErrNil, "golang.org/x/sys/unix.Linkat")},
+			Effect: core.CallTo(fst + "replaceRewriteCompressedObjectFile")})
+	}
 	// generic writer: wherever it renames a file into place, the renamed file is the very one whose complete write
 	// succeeded (same path value) — whichever helper functions the write and the rename live in
 	nRen := 0
@@ -433,7 +445,7 @@ func publishAfterCompleteWrite(p *core.Prog, r *core.Report, r1 *core.RuleH) {
 
 func runC12(p *core.Prog, r *core.Report) {
 	r.Explain = "Decides the publish-after-complete-write discipline that makes a stop at any point harmless: (R1) the call that makes an object visible under its final name (linkat from the O_TMPFILE descriptor / rename of the temporary file) is reached only after the data write returned nil AND the full-length test passed (linux) or the temporary file was written and closed successfully (generic); (R2) the final object path is never opened or created for writing — inside the writers the path parameter flows only into the link/rename target, into the temporary name (path + '#' + n) and into error messages; (R3) the temporary-name separator the generic writer uses is the one the start-up cleaner matches, and such names cannot parse as object addresses; (R4) only EEXIST from link is mapped to success. Not covered: kernel atomicity of linkat/rename, enumeration of stop points, fsync semantics."
-	r1 := r.Rule("C12.R1", "the publishing call (linkat / rename to the final path) is dominated by a successful, full-length data write", 5)
+	r1 := r.Rule("C12.R1", "the publishing call (linkat / rename to the final path; in the compressed-object rewrite: naming the unnamed file and exchanging it into the object's path) is dominated by a successful, full-length data write, and the rewrite exchanges only a name this very call created", 5)
 	publishAfterCompleteWrite(p, r, r1)
 	// R2 value flow of the final path
 	r2 := r.Rule("C12.R2", "the final object path flows only into the link/rename target, the temporary name and error messages — never into a file-creating call", 4)
